@@ -91,6 +91,26 @@ def check_string(s, full):
             viol.append(("stream-wrong-digest/md5", f"sizes={comp} data={s!r}"))
         if st.total_read != n:
             viol.append(("stream-miscounts", f"total_read={st.total_read} len={n} sizes={comp}"))
+    # (1b) hash_value is a pure observer: polling it before / between reads changes nothing, and for a plain
+    # algorithm it is the digest of the bytes read so far
+    for name, rds in (("md5", (1, 2)), ("sha256", (3,)), ("md5-dos2unix", (512, 600))):
+        for rd in rds:
+            polled = get_hash_stream(io.BytesIO(s), name=name)
+            quiet = get_hash_stream(io.BytesIO(s), name=name)
+            seen = b""
+            polled.hash_value  # noqa: B018
+            while True:
+                c = polled.read(rd)
+                quiet.read(rd)
+                if not c:
+                    break
+                seen += c
+                hv = polled.hash_value
+                if name != "md5-dos2unix" and hv != ref.digest(name, seen):
+                    viol.append((f"intermediate-digest-wrong/{name}", f"after {len(seen)} of {s!r}"))
+            n_ops += 1
+            if polled.hash_value != quiet.hash_value:
+                viol.append((f"polling-hash_value-changes-the-digest/{name}", f"read={rd} data={s!r}"))
     # (2) every algorithm name, one composition each
     for i, name in enumerate(PLAIN_ALGOS):
         comp = comps[i % len(comps)]
